@@ -237,7 +237,7 @@ def _branch_and_price(
         solution = _build_solution(x_vals, columns, eps)
         if _covers(solution, demands):
             status = Status.OPTIMAL if proven(lp_obj) else Status.FEASIBLE
-            return Result(solution, lp_obj, 0, total_cg_iters, status)
+            return Result(solution, float(sum(solution.values())), 0, total_cg_iters, status)
 
     # Initialize B&B
     best_solution: dict[tuple[int, ...], int] | None = None
@@ -285,8 +285,8 @@ def _branch_and_price(
 
         if frac_idx is None:
             # Integer feasible - update incumbent
-            obj = sum(x for x in x_vals if x > eps)
             solution = _build_solution(x_vals, columns, eps)
+            obj = float(sum(solution.values()))
             if obj < best_obj - eps and _covers(solution, demands):
                 best_solution = solution
                 best_obj = obj
